@@ -101,6 +101,33 @@ def gen_tree(rng, base="wl", depth=3, fan=4, big=False, tie=False, pidcounts=(0,
     return cgs, info, pids
 
 
+def kernelkill_inner_nodes(rng, cgs, info, args, base="wl"):
+    """cgroup-v2 shape for cgroup.kill victims: processes live only in leaves ("no internal processes"), so an inner node's
+    own cgroup.procs is empty although it is populated; pids.current is hierarchical, 0 or absent (no pids controller)."""
+    def sub_pids(rel):
+        r = list(info[rel]["pids"])
+        for c in info[rel]["children"]:
+            r += sub_pids(c)
+        return r
+    mode = rng.choice(["hier", "zero", "absent"])
+    for rel in info:
+        if info[rel]["children"]:
+            below = [p for c in info[rel]["children"] for p in sub_pids(c)]
+            info[rel]["pids"] = []
+            f = cgs[rel]["files"]
+            f["cgroup.procs"] = ""
+            if mode == "hier":
+                f["pids.current"] = "%d\n" % len(below)
+            elif mode == "zero":
+                f["pids.current"] = "0\n"
+            else:
+                f.pop("pids.current", None)
+            f["cgroup.events"] = "populated %d\nfrozen 0\n" % int(bool(below))
+    args["cgroup"] = base + "/*"
+    args.pop("recursive", None)
+    return mode
+
+
 def kill_args(rng, plugin, patterns, recursive=None, dry=False, **force):
     a = {"cgroup": ",".join(patterns)}
     if recursive is None:
